@@ -25,15 +25,23 @@ EMITTERS = {
     "local_get": ("wasmCWriteLocalGetExpr", GENERIC), "local_get_invalid": ("wasmCWriteLocalGetExpr", GENERIC),
     "local_assign": ("wasmCWriteLocalAssignmentExpr", [("set", ["LOCAL_OPC=wasmOpcodeLocalSet"]), ("tee", ["LOCAL_OPC=wasmOpcodeLocalTee"])]),
     "const": ("wasmCWriteConstExpr", [("32", ["CONST64=0"]), ("64", ["CONST64=1"])]),
+    "call": ("wasmCWriteCallExpr", [("p2r1", ["NPAR=2", "NRES=1"]), ("p0r1", ["NPAR=0", "NRES=1"]), ("p3r0", ["NPAR=3", "NRES=0"]), ("p1r1", ["NPAR=1", "NRES=1"]), ("p0r0", ["NPAR=0", "NRES=0"])]),
+    "call_indirect": ("wasmCWriteCallIndirectExpr", [("p2r1", ["NPAR=2", "NRES=1"]), ("p0r1", ["NPAR=0", "NRES=1"]), ("p3r0", ["NPAR=3", "NRES=0"]), ("p1r1", ["NPAR=1", "NRES=1"]), ("p0r0", ["NPAR=0", "NRES=0"])]),
+    "br": ("wasmCWriteBranchExpr", [("copy", ["BR_CLASS=0"]), ("inplace", ["BR_CLASS=1"]), ("novalue", ["BR_CLASS=2"])]),
+    "br_if": ("wasmCWriteBranchIfExpr", [("copy", ["BR_CLASS=0"]), ("inplace", ["BR_CLASS=1"]), ("novalue", ["BR_CLASS=2"])]),
     "ignored": ("wasmCWriteLocalGetExpr", [("local_get", ["IGN_WHICH=0"]), ("local_set", ["IGN_WHICH=1"]), ("local_tee", ["IGN_WHICH=2"]), ("const", ["IGN_WHICH=3"])]),
 }
-ALL_VARIANTS_IN_QUICK = {"ignored"}
+ALL_VARIANTS_IN_QUICK = {"ignored", "br", "br_if"}
 EXTRA_FUNCS = {
     "load": ["c.c:wasmCWriteStringMemoryUse"], "store": ["c.c:wasmCWriteStringMemoryUse"],
     "local_get": ["module.h:wasmModuleFunctionGetLocalType", "locals.h:wasmLocalsDeclarationsGetType", "instruction.c:wasmLocalInstructionRead", "leb128.h:leb128ReadU32", "c.c:wasmCWriteStringLocalName"],
     "local_get_invalid": ["module.h:wasmModuleFunctionGetLocalType", "locals.h:wasmLocalsDeclarationsGetType"],
     "local_assign": ["module.h:wasmModuleFunctionGetLocalType", "locals.h:wasmLocalsDeclarationsGetType", "instruction.c:wasmLocalInstructionRead", "c.c:wasmCWriteStringLocalName"],
     "ignored": ["c.c:wasmCWriteLocalAssignmentExpr", "c.c:wasmCWriteConstExpr", "instruction.c:wasmLocalInstructionRead", "instruction.c:wasmConstInstructionRead"],
+    "br": ["c.c:wasmCWriteGoto", "labelstack.h:wasmLabelStackGetTopIndex", "instruction.c:wasmBranchInstructionRead", "c.c:wasmCWriteStringLabelName"],
+    "br_if": ["c.c:wasmCWriteGoto", "labelstack.h:wasmLabelStackGetTopIndex", "instruction.c:wasmBranchInstructionRead", "c.c:wasmCWriteStringLabelName"],
+    "call": ["module.h:wasmModuleGetFunctionType", "c.c:wasmCWriteStringFunctionUse", "instruction.c:wasmCallInstructionRead"],
+    "call_indirect": ["c.c:wasmCWriteStringTableUse", "c.c:wasmCWriteParameters", "c.c:wasmCGetReturnType", "instruction.c:wasmCallIndirectInstructionRead"],
     "const": ["instruction.c:wasmConstInstructionRead", "leb128.h:leb128ReadI32", "leb128.h:leb128ReadI64", "c.c:wasmCWriteLiteral"],
 }
 COMMON = ["typestack.h:wasmTypeStackSet", "typestack.h:wasmTypeStackDrop", "typestack.h:wasmTypeStackGetTopIndex",
@@ -65,4 +73,23 @@ def grow_jobs(ctx, sizes):
                         includes=[os.path.join(ctx.repo, "w2c2"), H], defines=["ISZ=%d" % isz],
                         funcs=["array.c:arrayEnsureCapacitySlowPath"], malloc_may_fail=True,
                         info=dict(layer="A", note="capacity and length symbolic up to 2^24+8 elements of %d bytes; realloc/calloc are CBMC's library models" % isz)))
+    return jobs
+
+
+def block_jobs(ctx):
+    """block / loop / if modular in the enclosed code (wasmCWriteFunctionCode replaced by its contract = the induction hypothesis)"""
+    jobs = []
+    kinds = [("block", 0), ("loop", 1), ("if", 2), ("ifelse", 3)]
+    for nm, k in kinds:
+        for typed in (1, 0):
+            for dead in (0, 1):
+                if dead and (typed == 0 or (ctx.tier == "quick" and nm not in ("block", "ifelse"))):
+                    continue
+                for pr in ((0, 1) if ctx.tier == "thorough" else (0,)):
+                    name = "S.%s%s%s%s" % (nm, ".typed" if typed else ".void", ".dead" if dead else "", ".pretty" if pr else "")
+                    j = ejob(ctx, name, "e_block.c", "h_block", ["c.c:wasmCWrite%sExpr" % {0: "Block", 1: "Loop", 2: "If", 3: "If"}[k], "labelstack.h:wasmLabelStackPush", "labelstack.h:wasmLabelStackPop", "c.c:wasmCWriteLabel"],
+                             defines=["BL_KIND=%d" % k, "BL_TYPED=%d" % typed, "BL_DEAD=%d" % dead, "PRETTY=%d" % pr, "INDENT=%d" % (1 if pr else 0)],
+                             flags=["--unwind", "12", "--unwinding-assertions"], replace=[("wasmCWriteFunctionCode", "c_inner")], replay=None,
+                             info=dict(layer="S", note="symbolic stack height and label-stack length; the enclosed code enters through the induction hypothesis (contract c_inner in harness/e_block.c)"))
+                    jobs.append(j)
     return jobs
